@@ -1,6 +1,7 @@
 (* Scores, errors, test results and individuals: ordering and aggregation
    (ec-core/src/test_results.rs, individual/ec.rs, operator/genome_scorer.rs). *)
-From Coq Require Import List ZArith Bool Lia.
+From Coq Require Import List ZArith Bool Lia Floats.
+From UEC Require Import Base.F64.
 Import ListNotations.
 Local Open Scope Z_scope.
 
@@ -166,3 +167,17 @@ Proof.
     repeat split; try discriminate; auto;
     try (rewrite Z.compare_antisym, E; cbn; discriminate); try (rewrite E; cbn; discriminate).
 Qed.
+
+(* ---- floating-point results: addition is not associative, so "the sum of the per-case results IN THE ORDER
+   GIVEN" is a left-to-right fold and nothing else (z = the value an empty sum has: Rust's -0.0) ---- *)
+Definition ftotal (z : float) (l : list float) : float := fold_left PrimFloat.add l z.
+Lemma ftotal_cons z x l : ftotal z (x :: l) = ftotal (PrimFloat.add z x) l.
+Proof. reflexivity. Qed.
+Lemma ftotal_snoc z l x : ftotal z (l ++ [x]) = PrimFloat.add (ftotal z l) x.
+Proof. unfold ftotal. rewrite fold_left_app. reflexivity. Qed.
+(* regrouping (summing blocks first) changes the result: 10^16 followed by two ones *)
+Lemma ftotal_grouping_matters :
+  let big := i2f 10000000000000000 in
+  ftotal (fzero true) [big; PrimFloat.one; PrimFloat.one]
+  <> PrimFloat.add (ftotal (fzero true) [big]) (ftotal (fzero true) [PrimFloat.one; PrimFloat.one]).
+Proof. intros big H. apply (f_equal bits) in H. vm_compute in H. discriminate H. Qed.
